@@ -205,6 +205,26 @@ def structured_generators(rng, combo, m, n, n_indep, n_gen, scale=1.0):
     return gens
 
 
+def graded_generators(rng, combo, m, n, svals, n_gen, scale=1.0):
+    """`n_gen` generators of the class of `combo` whose coordinate matrix (class inner product) has EXACTLY the singular values
+    `svals` (times `scale`, times the constant norm factor of the embedded classes): an orthonormal family of the class (QR in
+    class coordinates, coefficients in the coefficient field of the class) mixed by a matrix with orthonormal columns.
+    Used for nearly rank-deficient / badly conditioned but admissible generator lists (condition number = max/min of svals)."""
+    cls, dt, field = combo
+    svals = np.asarray(svals, dtype=np.float64)
+    k = len(svals)
+    assert n_gen >= k
+    base = structured_generators(rng, combo, m, n, k, k)
+    v = coords(cls, to_representation(cls, base))
+    cplx_coeff = (cls not in REAL_FIELD) and dt == 'complex'
+    if not cplx_coeff and np.iscomplexobj(v):
+        v = np.concatenate([v.real, v.imag], axis=1)
+    _, r = np.linalg.qr(v.T)
+    ob = np.tensordot(np.linalg.inv(r.T), base, axes=(1, 0))
+    u = orthonormal_rows(_randn(rng, cplx_coeff, k, n_gen)).T
+    return np.tensordot(u * svals[None, :], ob, axes=(1, 0)) * scale
+
+
 COMBOS = [('R', 'real', 'real'), ('R_T', 'real', 'real'), ('C', 'real', 'complex'), ('C', 'complex', 'complex'),
           ('C_T', 'real', 'complex'), ('C_T', 'complex', 'complex'), ('C_H', 'complex', 'real'),
           ('R_cT', 'complex', 'real'), ('R_c', 'complex', 'real')]
@@ -252,6 +272,18 @@ def planted_product(rng, dims, N, cplx):
     mix = _randn(rng, cplx, N, N)
     basis = random_rotation(rng, N, cplx) @ orthonormal_rows(mix @ gens)
     return basis.reshape((N,) + tuple(dims)), planted, vecs, float(np.linalg.cond(mix))
+
+
+def planted_symmetric_rank_one(rng, d, N):
+    """orthonormal basis (N,d,d) of a real subspace of SYMMETRIC matrices containing the planted rank-one element x x^T"""
+    x = rng.normal(size=d)
+    x /= np.linalg.norm(x)
+    planted = np.outer(x, x)
+    rest = rng.normal(size=(N - 1, d, d))
+    rest = (rest + rest.transpose(0, 2, 1)) / 2
+    gens = np.concatenate([planted[None], rest], axis=0).reshape(N, -1)
+    basis = random_rotation(rng, N, False) @ orthonormal_rows(rng.normal(size=(N, N)) @ gens)
+    return basis.reshape(N, d, d), planted
 
 
 def basis_with_coefficients(rng, planted, N, cplx, coeff):
@@ -335,6 +367,35 @@ def outside_numerical_range(points, A, ndir=72):
     pts = np.asarray(points, dtype=np.complex128).reshape(-1)
     proj = (np.exp(1j * phis)[None, :] * pts[:, None]).real
     return float((proj - h[None, :]).max())
+
+
+def radial_extent(A, alpha, ngrid=1440):
+    """max{x >= 0 : x e^{i alpha} in W(A)} from the support function: x cos(phi+alpha) <= h(phi) for every direction phi, i.e.
+    min over cos(phi+alpha) > 0 of h(phi)/cos(phi+alpha) (grid + golden-section refinement around the best grid point; an upper
+    bound of the true value that is exact up to the refinement). Also returns min_phi h(phi) (> 0 iff 0 is an interior point)."""
+    A = np.asarray(A, dtype=np.complex128)
+    phis = np.linspace(0, 2 * np.pi, ngrid, endpoint=False)
+    h = support_values(A, phis)
+    c = np.cos(phis + alpha)
+    ok = c > 1e-3
+    f = np.where(ok, h / np.where(ok, c, 1.0), np.inf)
+    i = int(np.argmin(f))
+    fun = lambda p: support_value(A, p) / np.cos(p + alpha)
+    lo, hi = phis[i] - 2 * np.pi / ngrid, phis[i] + 2 * np.pi / ngrid
+    g = (np.sqrt(5) - 1) / 2
+    a, b = lo, hi
+    x1, x2 = b - g * (b - a), a + g * (b - a)
+    f1, f2 = fun(x1), fun(x2)
+    for _ in range(60):
+        if f1 < f2:
+            b, x2, f2 = x2, x1, f1
+            x1 = b - g * (b - a)
+            f1 = fun(x1)
+        else:
+            a, x1, f1 = x1, x2, f2
+            x2 = a + g * (b - a)
+            f2 = fun(x2)
+    return float(min(f[i], f1, f2)), float(h.min())
 
 
 def rand_square(rng, d, kind):
@@ -436,6 +497,17 @@ def _selfcheck():
         assert abs(support_value(A, t) - (np.exp(1j * t) * ev).real.max()) < 1e-12
     assert outside_numerical_range(ev, A) < 1e-12
     assert outside_numerical_range([ev[0] + 10], A) > 1
+    for combo in COMBOS:
+        g = graded_generators(rng, combo, 3, 3, [1.0, 1e-2, 1e-5], 5, 10.0)
+        assert classify(g, combo[2]) == combo[0], combo
+        sv = singular_values(coords(combo[0], to_representation(combo[0], g)))
+        assert np.abs(sv[:3] / sv[0] - [1.0, 1e-2, 1e-5]).max() < 1e-9 and sv[3] < 1e-12 * sv[0], (combo, sv)
+    bs, pl = planted_symmetric_rank_one(rng, 3, 2)
+    assert orthonormality_defect(bs) < 1e-12 and membership_residual(bs, pl) < 1e-12 and np.abs(bs - bs.transpose(0, 2, 1)).max() < 1e-14
+    r, hmin = radial_extent(np.diag([1.0, -1.0, 1j, -1j]), 0.0)      # W = square with corners +-1, +-i
+    assert abs(r - 1) < 1e-9 and hmin > 0.5
+    r, _ = radial_extent(np.diag([1.0, -1.0, 1j, -1j]), np.pi / 4)
+    assert abs(r - np.sqrt(0.5)) < 1e-9
     assert generic_min_rank_bound(3, 3, 4) == 2 and generic_min_rank_bound(3, 3, 5) == 1 and generic_min_rank_bound(4, 4, 4) == 3
 
 
